@@ -319,3 +319,30 @@ def rule_localmemo(prog: Program, modules: Optional[Set[str]] = None) -> List[In
                                 else f"memo `{d}` keyed by `{short(key, 20)}`: the stored value depends on the loop only through the key", fi.where(st)))
     out.append(Instance("R-MEMO", "memo-scan", OK, f"{n_memo} loop-local memo dictionaries checked", "", nontrivial=False))
     return out
+
+
+# ---------------------------------------------------------------------------------------------
+# R-REMAINDER: sign-asymmetric remainder / truncation primitives are owned by odc.geo.math
+# ---------------------------------------------------------------------------------------------
+ASYM_CALLS = {"fmod", "modf", "trunc", "remainder", "divmod"}
+
+
+def rule_remainder_owner(prog: Program, modules: Optional[Set[str]] = None) -> List[Instance]:
+    """math.fmod / math.modf / math.trunc keep the sign of their argument (fmod(-0.3, 1) = -0.3), so a
+    "fractional part" taken with them lies in (-1, 1) instead of [-0.5, 0.5) or [0, 1). The repository
+    wraps them once, with the sign handling, in odc.geo.math (split_float, split_translation,
+    is_almost_int, maybe_int); grid code takes whole/fractional parts only through those helpers."""
+    out: List[Instance] = []
+    n_seen = 0
+    for fi in prog.all_functions(modules):
+        if fi.mod.name == "math":
+            continue
+        for n in walk_own(fi.node):
+            if isinstance(n, ast.Call):
+                nm = n.func.attr if isinstance(n.func, ast.Attribute) else getattr(n.func, "id", None)
+                if nm in ASYM_CALLS:
+                    n_seen += 1
+                    out.append(Instance("R-REMAINDER", f"{fi.qual}#asym:{short(n, 40)}", BAD,
+                                        f"`{short(n, 60)}` takes a sign-preserving remainder/truncation outside odc.geo.math: for negative offsets the fractional part comes out negative instead of wrapping; use split_float / split_translation", fi.where(n)))
+    out.append(Instance("R-REMAINDER", "asym-scan", OK, f"{n_seen} sign-preserving remainder calls outside odc.geo.math", "", nontrivial=False))
+    return out
